@@ -39,6 +39,12 @@ theorem linksOld_setLink {L : Nat} {syms : Syms} (h : LinksOld L syms) (i : Nat)
     LinksOld L (setLink syms i (some t)) :=
   linksOld_modify h i _ (fun _ x hx => by simp only [Option.some.injEq] at hx; subst hx; exact Or.inr ht)
 
+theorem linksOld_pinIfWith {L : Nat} {syms : Syms} (h : LinksOld L syms) (f : Frame) (i : Nat) :
+    LinksOld L (pinIfWith f syms i) := by
+  unfold pinIfWith; split
+  · exact linksOld_pin h i
+  · exact h
+
 /-- declareSymbol: links stay inside the table, the returned ref exists -/
 theorem declareSymbol_links {cur cur' : Frame} {st st' : PSt} {k : SK} {n : Name} {r : Nat}
     (h : declareSymbol cur st k n = some (cur', st', r)) (hl : LinksOld st.syms.length st.syms)
@@ -272,15 +278,18 @@ theorem hoistUp_links (name : Name) (mref orig : Nat) (sl : Bool) (L : Nat) (hm 
         · cases h; exact ⟨hl1, rfl⟩
         · split at h
           · cases h
-            exact ⟨linksOld_setLink hl1 _ hex', rfl⟩
+            refine ⟨linksOld_setLink ?_ _ hex', rfl⟩
+            split
+            · exact pinLinks_ind (fun a => LinksOld L a) (fun a i h => linksOld_pin h i) _ _ _ hl1
+            · exact hl1
           · split at h
             · split at h
               · split at h
                 · cases h; exact ⟨hl1, rfl⟩
                 · split at h <;> cases h <;> exact ⟨hl1, rfl⟩
               · cases h; exact ⟨hl1, rfl⟩
-            · exact hcont { s with members := insert name mref s.members }
-                { st1 with syms := setLink st1.syms ex (some mref) } rfl (linksOld_setLink hl1 _ hm) h
+            · exact hcont { s with members := insert name mref s.members } _ rfl
+                (linksOld_setLink (by split; exact linksOld_pin hl1 _; exact hl1) _ hm) h
       · cases h
 
 theorem hoistMember_links {anc anc' : List Frame} {f f' : Frame} {st st' : HSt} {mref : Nat}
@@ -303,9 +312,9 @@ theorem hoistMember_links {anc anc' : List Frame} {f f' : Frame} {st st' : HSt} 
             · next anc1 st1 hu =>
               cases h
               obtain ⟨hlen, _⟩ := hoistUp_spec _ _ _ _ _ _ _ _ _ hu
-              simp only [List.length_append, List.length_singleton] at hlen
+              simp only [length_pinIfWith, List.length_append, List.length_singleton] at hlen
               obtain ⟨h1, h2⟩ := hoistUp_links _ _ _ _ (st.syms.length + 1) (Nat.lt_succ_self _) _ _ _ _ _ hu
-                (linksOld_append (hl.mono (Nat.le_succ _)) _ _)
+                (linksOld_pinIfWith (linksOld_append (hl.mono (Nat.le_succ _)) _ _) _ _)
                 (fun f hf s hs => Nat.lt_succ_of_lt (hb f hf s hs))
               exact ⟨by rw [hlen]; exact h1, h2⟩
         · split at h
@@ -313,7 +322,8 @@ theorem hoistMember_links {anc anc' : List Frame} {f f' : Frame} {st st' : HSt} 
           · next anc1 st1 hu =>
             cases h
             obtain ⟨hlen, _⟩ := hoistUp_spec _ _ _ _ _ _ _ _ _ hu
-            obtain ⟨h1, h2⟩ := hoistUp_links _ _ _ _ st.syms.length hm _ _ _ _ _ hu hl hb
+            simp only [length_pinIfWith] at hlen
+            obtain ⟨h1, h2⟩ := hoistUp_links _ _ _ _ st.syms.length hm _ _ _ _ _ hu (linksOld_pinIfWith hl _ _) hb
             exact ⟨by rw [hlen]; exact h1, h2⟩
   · cases h
 
